@@ -1,5 +1,5 @@
 SPECIFICATION Spec
-CONSTANTS NSet = {100, 500, 5000}  CSet = {1, 2, 3, 4, 5, 6}  Kinds = {"default", "user"}  Reps = {1, 2, 3}  SharedKw = FALSE  KFixAll = TRUE  Dev = "none"
+CONSTANTS NSet = {100, 500, 5000}  CSet = {1, 2, 3, 4, 5, 6}  Kinds = {"default", "user", "far"}  Reps = {1, 2, 3}  SharedKw = FALSE  KFixAll = TRUE  Dev = "none"
 CHECK_DEADLOCK FALSE
 INVARIANT NoLikelihoodLoss
 INVARIANT AtLeastGenerating
